@@ -5,6 +5,7 @@ import NurbsVerif.Lemmas.SplitSurfSep
 import NurbsVerif.Lemmas.SplitExamples
 import NurbsVerif.Lemmas.SplitSurfUVMain
 import NurbsVerif.Lemmas.SplitUnclampedExamples
+import NurbsVerif.Lemmas.DecompUnclampedExamples
 
 /-!
 # C07  Splitting and Bézier decomposition reproduce the original piecewise
@@ -28,6 +29,17 @@ Unclamped knot vectors (domain `[U_p, U_n]`, arbitrary sorted outer knots): `spl
 `ClampedKv`; each piece is evaluated at the affine image of `t ∈ [0,1]` in ITS OWN domain, which is a
 sub-interval of `[0,1]` because the constructor normalises the piece's whole knot range), and the
 rejection at both domain ends `split_curve_rejects_both_ends`, `split_surface_rejects_both_ends`.
+
+The exceptions of the code: the driver runs `splitDirE` / `decomposeDirE` / `decomposeUVE` (Model/DecomposeE), which
+answer `none` exactly where the implementation raises (a split parameter / decomposition knot repeated more than
+`p` times; the first knot of `U[p+1 : -(p+1)]` on a domain end) and otherwise what `splitDir` / `decomposeDir` /
+`decomposeUV` answer (`split_with_exceptions_agrees`, `decompose_with_exceptions_agrees`,
+`decompose_rejects_domain_edge`, `decompose_rejects_overfull_multiplicity`, `decompose_curve_not_rejected`).
+Decomposition of curves and of surfaces in u / in v / in both whose knot vector in the decomposed direction need not
+be clamped: `decompose_unclamped_curve_pieces`, `decompose_unclamped_curve_count`,
+`decompose_unclamped_surface_u_pieces`, `decompose_unclamped_surface_v_pieces`, `decompose_unclamped_surface_uv_pieces`
+(hypothesis `DecompWFU`; the clamped
+`DecompWF` is a special case).
 -/
 namespace C07
 open Geomdl Blossom
@@ -663,5 +675,316 @@ example : ∃ UA nA PA UB nB PB,
       (by norm_num [SplitUEx.tol]) SplitUEx.sep_V SplitUEx.mul_V
   refine ⟨UA, nA, PA, UB, nB, PB, h1, ?_⟩
   rw [h5]; simp [SplitUEx.V, fnOf, List.getD]; norm_num
+
+/-! ## The exceptions of the code, and decomposition of curves with unclamped knot vectors
+
+`decompose_curve` takes the knots `U[p+1 : -(p+1)]` of the current remainder and splits at the first of
+them.  For an unclamped input the first piece is a single-span segment over a knot vector that is
+unclamped at its left end (clamped at its right end), the last piece one that is unclamped at its right
+end; the pieces in between are Bézier segments.  `SegPiece p d F a b (V, Q)`: `(V, Q)` is a well-formed curve
+with `p+1` control points that, at the affine image of `t ∈ [0,1]` in its own domain `[V_p, V_{p+1}]`, is
+`F` at `a + t (b - a)`. -/
+
+/-- **The model with exceptions agrees with the plain model wherever it answers** (splits): if `splitDirE`
+    (what the driver runs; `none` = the implementation raises) returns a pair, `splitDir` returns the
+    same pair, so every theorem about `splitDir` is a theorem about the driver's answer. -/
+theorem split_with_exceptions_agrees (S : Shape K) (dir : ℕ) (u tol : K) (r : Shape K × Shape K)
+    (h : splitDirE S dir u tol = some r) : splitDir S dir u tol = some r :=
+  splitDirE_some S dir u tol r h
+
+/-- `split_*` at a parameter that `find_multiplicity` counts more than `p` times raises (`ValueError`: the
+    pieces' knot vectors do not fit their control points); at most `p` copies: `splitDirE` is `splitDir`. -/
+theorem split_rejects_overfull_multiplicity (S : Shape K) (dir : ℕ) (u tol : K) :
+    (S.deg dir < findMultiplicity u (S.kv dir) tol → splitDirE S dir u tol = none) ∧
+    (findMultiplicity u (S.kv dir) tol ≤ S.deg dir → splitDirE S dir u tol = splitDir S dir u tol) :=
+  ⟨splitDirE_none_of_gt S dir u tol, splitDirE_of_le S dir u tol⟩
+
+/-- **The model with exceptions agrees with the plain model wherever it answers** (decomposition, one
+    direction and `uv`). -/
+theorem decompose_with_exceptions_agrees (tol : K) (S : Shape K) (l : List (Shape K)) :
+    (∀ dir fuel, decomposeDirE dir tol fuel S = some l → decomposeDir dir tol fuel S = l) ∧
+    (decomposeUVE tol S = some l → decomposeUV tol S = l) :=
+  ⟨fun dir fuel h => decomposeDirE_some dir tol fuel S l h, decomposeUVE_some tol S l⟩
+
+/-- **Rejection on a domain edge**: when the first knot of `U[p+1 : -(p+1)]` equals the domain start `U_p`
+    (an unclamped knot vector with `U_{p+1} = U_p`, or a clamped one whose first knot is repeated `p+2`
+    times) or the domain end `U_n`, `decompose_curve` / `decompose_surface` raises ("Cannot split from the
+    domain edge"); the model with exceptions answers `none` (any shape, any direction). -/
+theorem decompose_rejects_domain_edge (dir : ℕ) (tol : K) (fuel : ℕ) (S : Shape K)
+    (hlen : (S.kv dir).length = S.size dir + S.deg dir + 1) (hn : S.deg dir + 1 < S.size dir)
+    (h : fnOf (S.kv dir) (S.deg dir + 1) = fnOf (S.kv dir) (S.deg dir)
+       ∨ fnOf (S.kv dir) (S.deg dir + 1) = fnOf (S.kv dir) (S.size dir)) :
+    decomposeDirE dir tol (fuel + 1) S = none :=
+  decomposeDirE_rejects dir tol fuel S hlen hn h
+
+/-- **Rejection of an over-full knot**: when the first knot of `U[p+1 : -(p+1)]` is counted more than `p`
+    times, the decomposition raises (`ValueError`); model: `none`. -/
+theorem decompose_rejects_overfull_multiplicity (dir : ℕ) (tol : K) (fuel : ℕ) (S : Shape K)
+    (hlen : (S.kv dir).length = S.size dir + S.deg dir + 1) (hn : S.deg dir + 1 < S.size dir)
+    (h : S.deg dir < findMultiplicity (fnOf (S.kv dir) (S.deg dir + 1)) (S.kv dir) tol) :
+    decomposeDirE dir tol (fuel + 1) S = none :=
+  decomposeDirE_rejects_mult dir tol fuel S hlen hn h
+
+/-- Under the hypotheses of `decompose_curve_pieces` (clamped, admissible) the model with exceptions does
+    not raise and returns exactly the list `decomposeDir` returns. -/
+theorem decompose_curve_not_rejected (rat : Bool) (p d : ℕ) (tol : K) (fuel : ℕ) (U : List K) (P : List (List K))
+    (h : DecompWF p d U P tol) (hfuel : (spanStarts p (fnOf U) P.length).length ≤ fuel + 1) :
+    decomposeDirE 0 tol fuel (curveShape rat p U P) = some (decomposeDir 0 tol fuel (curveShape rat p U P)) :=
+  Geomdl.decompose_curve_not_rejected rat p d tol fuel U P h hfuel
+
+/-- the admissibility of the unclamped theorems is weaker than that of the clamped ones -/
+theorem decompose_admissible_of_clamped (p d : ℕ) (U : List K) (P : List (List K)) (tol : K)
+    (h : DecompWF p d U P tol) : DecompWFU p d U P tol := h.toU
+
+/-- **Decomposition of a curve whose knot vector need not be clamped, end to end.**  For an admissible
+    curve (`DecompWFU`: sorted knots, `|U| = n + p + 1`, `n ≥ p + 1`, `p ≥ 1`, non-empty last span
+    `U_{n-1} < U_n`, the non-raising guard `U_p < U_{p+1}`, inner knots `U_{p+1} … U_{n-1}` repeated at most
+    `p` times, knot range `U_{n+p} - U_0 ≤ 1`, any two knots equal or further than `tol` apart) and enough
+    fuel, `decompose_curve` does not raise (`decomposeDirE … = some …`, and `decomposeDir` returns the same
+    list) and returns EXACTLY ONE piece per non-empty knot interval of the domain `[U_p, U_n]`, IN ORDER;
+    every piece is a well-formed single-span segment with `p+1` control points that coincides with the
+    original on its interval `[breaks i, breaks (i+1)]` under the affine map of ITS OWN domain
+    `[V_p, V_{p+1}]` (`SegPiece`), every parameter, both ends, every coordinate; piece `i` is a Bézier segment
+    (`BezPiece`: clamped at both ends; knot vector `0^{p+1} 1^{p+1}` once a split happened or the input's
+    range is `[0,1]`) whenever (`i ≥ 1` or the input is clamped at its start) and (`i` is not the last
+    piece or the input is clamped at its end) – in particular every INNER piece; and when at least one
+    split happens the first piece's knot vector starts at `0`, its domain starts at
+    `(U_p - U_0)/(U_{p+1} - U_0)`, it ends with `p+1` ones, while the last piece starts with `p+1` zeros, its
+    domain ends at `(U_n - b)/(U_{n+p} - b)` (`b` the last interior break point) and its last knot is `1`; every piece's knot range is `[0,1]` (first knot `0`, last knot `1`) once a split
+    happened or the input's range is `[0,1]`. -/
+theorem decompose_unclamped_curve_pieces (rat : Bool) (p d : ℕ) (tol : K) (fuel : ℕ) (U : List K)
+    (P : List (List K)) (h : DecompWFU p d U P tol)
+    (hfuel : (spanStarts p (fnOf U) P.length).length ≤ fuel + 1) :
+    ∃ pieces : List (List K × List (List K)),
+      decomposeDirE 0 tol fuel (curveShape rat p U P) = some (pieces.map (fun q => curveShape rat p q.1 q.2)) ∧
+      decomposeDir 0 tol fuel (curveShape rat p U P) = pieces.map (fun q => curveShape rat p q.1 q.2) ∧
+      pieces.length = (spanStarts p (fnOf U) P.length).length ∧
+      (∀ i, i < pieces.length →
+        SegPiece p d (curveFn p U P) ((breaks p (fnOf U) P.length).getD i 0)
+          ((breaks p (fnOf U) P.length).getD (i + 1) 0) (pieces.getD i ([], []))) ∧
+      (∀ i, i < pieces.length → (1 ≤ i ∨ fnOf U 0 = fnOf U p) →
+        (i + 1 < pieces.length ∨ fnOf U (P.length + p) = fnOf U P.length) →
+        BezPiece p d (curveFn p U P) ((breaks p (fnOf U) P.length).getD i 0)
+          ((breaks p (fnOf U) P.length).getD (i + 1) 0) (pieces.getD i ([], [])) ∧
+        ((p + 1 < P.length ∨ (fnOf U 0 = 0 ∧ fnOf U (P.length + p) = 1)) → (pieces.getD i ([], [])).1 = bezKv p)) ∧
+      (p + 1 < P.length →
+        fnOf (pieces.getD 0 ([], [])).1 0 = 0 ∧
+        fnOf (pieces.getD 0 ([], [])).1 p = (fnOf U p - fnOf U 0) / (fnOf U (p + 1) - fnOf U 0) ∧
+        fnOf (pieces.getD 0 ([], [])).1 (p + 1) = 1 ∧ fnOf (pieces.getD 0 ([], [])).1 (p + 1 + p) = 1 ∧
+        fnOf (pieces.getD (pieces.length - 1) ([], [])).1 0 = 0 ∧
+        fnOf (pieces.getD (pieces.length - 1) ([], [])).1 p = 0 ∧
+        fnOf (pieces.getD (pieces.length - 1) ([], [])).1 (p + 1)
+          = (fnOf U P.length - (breaks p (fnOf U) P.length).getD (pieces.length - 1) 0)
+            / (fnOf U (P.length + p) - (breaks p (fnOf U) P.length).getD (pieces.length - 1) 0) ∧
+        fnOf (pieces.getD (pieces.length - 1) ([], [])).1 (p + 1 + p) = 1) ∧
+      ((p + 1 < P.length ∨ (fnOf U 0 = 0 ∧ fnOf U (P.length + p) = 1)) → ∀ i, i < pieces.length →
+        fnOf (pieces.getD i ([], [])).1 0 = 0 ∧ fnOf (pieces.getD i ([], [])).1 (p + 1 + p) = 1) :=
+  decompose_curve_unclamped_final rat p d tol fuel U P h hfuel
+
+/-- **Number of pieces, unclamped knot vectors allowed** = number of non-empty knot intervals of the domain;
+    the length of the knot vector (what the driver passes) is always enough fuel; no exception. -/
+theorem decompose_unclamped_curve_count (rat : Bool) (p d : ℕ) (tol : K) (fuel : ℕ) (U : List K)
+    (P : List (List K)) (h : DecompWFU p d U P tol) (hfuel : U.length ≤ fuel) :
+    (decomposeDirE 0 tol fuel (curveShape rat p U P)).map List.length
+        = some (spanStarts p (fnOf U) P.length).length ∧
+    (decomposeDir 0 tol fuel (curveShape rat p U P)).length = (spanStarts p (fnOf U) P.length).length :=
+  decompose_curve_unclamped_count rat p d tol fuel U P h hfuel
+
+/-- one decomposition step keeps the curve admissible (unclamped version): the remainder after cutting
+    off the first segment – clamped at its start, its end as the input's – satisfies `DecompWFU` again -/
+theorem decompose_unclamped_remainder_admissible (p d : ℕ) (U : List K) (P : List (List K)) (tol : K)
+    (h : DecompWFU p d U P tol) (hn : p + 1 < P.length) :
+    DecompWFU p d
+      (knotNormalize (rightKv p (splitRefined p U P (fnOf U (p + 1)) tol).1 (fnOf U (p + 1))
+        (findSpanLinear p (fnOf U) P.length (fnOf U (p + 1)) + (p - findMultiplicity (fnOf U (p + 1)) U tol))))
+      ((splitRefined p U P (fnOf U (p + 1)) tol).2.drop
+        (findSpanLinear p (fnOf U) P.length (fnOf U (p + 1)) + (p - findMultiplicity (fnOf U (p + 1)) U tol) - p))
+      tol :=
+  remainder_wfU p d U P tol h hn
+
+/-- **Decomposition of a surface in u, u knot vector clamped or not, end to end** (model
+    `decomposeDirE 0` / `decomposeDir 0` on a surface = `decompose_surface(…, decompose_dir='u')`).  Hypotheses:
+    net of the right size and dimension; the u data admissible (`DecompWFU` of column 0); the v knot vector
+    sorted and NORMALISED (`knotNormalize Uv = Uv`, so that the strips keep it; clamped or not).  Conclusion:
+    no exception; exactly one strip per non-empty u interval, in order; strip `i` has `pu+1` control points in
+    u over a well-formed u knot vector, the same v data, and coincides with the original on
+    `[breaks i, breaks (i+1)] × (v domain)` under the affine map of its own u domain `[V_pu, V_{pu+1}]` and the
+    identity in v, every parameter, both ends, every coordinate; strip `i` is a Bézier strip in u (u knot
+    vector clamped at both ends; `0^{pu+1} 1^{pu+1}` once a split happened or the input's u range is `[0,1]`)
+    whenever (`i ≥ 1` or the input is clamped at its u start) and (`i` is not the last strip or the input is
+    clamped at its u end); every strip's u knot range is `[0,1]` once a split happened or the input's is. -/
+theorem decompose_unclamped_surface_u_pieces (rat : Bool) (pu pv d : ℕ) (tol : K) (fuel : ℕ) (Uu Uv : List K)
+    (su sv : ℕ) (P : List (List K)) (hP : NetOk d P) (hlenP : P.length = su * sv)
+    (hVm : Monotone (fnOf Uv)) (hsv : pv + 1 ≤ sv) (hVn : knotNormalize Uv = Uv)
+    (h0 : DecompWFU pu d Uu (colOf su sv P 0) tol)
+    (hfuel : (spanStarts pu (fnOf Uu) su).length ≤ fuel + 1) :
+    ∃ pieces : List (List K × ℕ × List (List K)),
+      decomposeDirE 0 tol fuel (surfShape rat pu pv Uu Uv su sv P)
+        = some (pieces.map (fun q => surfShape rat pu pv q.1 Uv q.2.1 sv q.2.2)) ∧
+      decomposeDir 0 tol fuel (surfShape rat pu pv Uu Uv su sv P)
+        = pieces.map (fun q => surfShape rat pu pv q.1 Uv q.2.1 sv q.2.2) ∧
+      pieces.length = (spanStarts pu (fnOf Uu) su).length ∧
+      (∀ i, i < pieces.length →
+        (pieces.getD i ([], 0, [])).2.1 = pu + 1 ∧
+        SplitKvWF pu (pu + 1) (pieces.getD i ([], 0, [])).1 ∧
+        (pieces.getD i ([], 0, [])).2.2.length = (pu + 1) * sv ∧ NetOk d (pieces.getD i ([], 0, [])).2.2 ∧
+        ∀ v, fnOf Uv pv ≤ v → ∀ t, 0 ≤ t → t ≤ 1 → ∀ j,
+          (surfacePoint pu pv (fnOf (pieces.getD i ([], 0, [])).1) (fnOf Uv) (pu + 1) sv
+              (pieces.getD i ([], 0, [])).2.2
+              (fnOf (pieces.getD i ([], 0, [])).1 pu
+                + t * (fnOf (pieces.getD i ([], 0, [])).1 (pu + 1) - fnOf (pieces.getD i ([], 0, [])).1 pu)) v).getD j 0
+            = (surfacePoint pu pv (fnOf Uu) (fnOf Uv) su sv P
+                ((breaks pu (fnOf Uu) su).getD i 0
+                  + t * ((breaks pu (fnOf Uu) su).getD (i + 1) 0 - (breaks pu (fnOf Uu) su).getD i 0)) v).getD j 0) ∧
+      (∀ i, i < pieces.length → (1 ≤ i ∨ fnOf Uu 0 = fnOf Uu pu) →
+        (i + 1 < pieces.length ∨ fnOf Uu (su + pu) = fnOf Uu su) →
+        ClampedKv pu (pu + 1) (pieces.getD i ([], 0, [])).1 ∧
+        ((pu + 1 < su ∨ (fnOf Uu 0 = 0 ∧ fnOf Uu (su + pu) = 1)) → (pieces.getD i ([], 0, [])).1 = bezKv pu)) ∧
+      ((pu + 1 < su ∨ (fnOf Uu 0 = 0 ∧ fnOf Uu (su + pu) = 1)) → ∀ i, i < pieces.length →
+        fnOf (pieces.getD i ([], 0, [])).1 0 = 0 ∧ fnOf (pieces.getD i ([], 0, [])).1 (pu + 1 + pu) = 1) :=
+  decompose_surface_u_allU rat pu pv d tol fuel Uu Uv su sv P hP hlenP hVm hsv hVn h0 hfuel
+
+/-- **Decomposition of a surface in v, v knot vector clamped or not, end to end** (model `decomposeDirE 1` /
+    `decomposeDir 1`): the mirror image of `decompose_unclamped_surface_u_pieces` (rows instead of columns;
+    the u knot vector sorted and normalised, clamped or not). -/
+theorem decompose_unclamped_surface_v_pieces (rat : Bool) (pu pv d : ℕ) (tol : K) (fuel : ℕ) (Uu Uv : List K)
+    (su sv : ℕ) (P : List (List K)) (hP : NetOk d P) (hlenP : P.length = su * sv)
+    (hUm : Monotone (fnOf Uu)) (hsu : pu + 1 ≤ su) (hUn : knotNormalize Uu = Uu)
+    (h0 : DecompWFU pv d Uv (rowOf sv P 0) tol)
+    (hfuel : (spanStarts pv (fnOf Uv) sv).length ≤ fuel + 1) :
+    ∃ pieces : List (List K × ℕ × List (List K)),
+      decomposeDirE 1 tol fuel (surfShape rat pu pv Uu Uv su sv P)
+        = some (pieces.map (fun q => surfShape rat pu pv Uu q.1 su q.2.1 q.2.2)) ∧
+      decomposeDir 1 tol fuel (surfShape rat pu pv Uu Uv su sv P)
+        = pieces.map (fun q => surfShape rat pu pv Uu q.1 su q.2.1 q.2.2) ∧
+      pieces.length = (spanStarts pv (fnOf Uv) sv).length ∧
+      (∀ i, i < pieces.length →
+        (pieces.getD i ([], 0, [])).2.1 = pv + 1 ∧
+        SplitKvWF pv (pv + 1) (pieces.getD i ([], 0, [])).1 ∧
+        (pieces.getD i ([], 0, [])).2.2.length = su * (pv + 1) ∧ NetOk d (pieces.getD i ([], 0, [])).2.2 ∧
+        ∀ u, fnOf Uu pu ≤ u → ∀ t, 0 ≤ t → t ≤ 1 → ∀ j,
+          (surfacePoint pu pv (fnOf Uu) (fnOf (pieces.getD i ([], 0, [])).1) su (pv + 1)
+              (pieces.getD i ([], 0, [])).2.2 u
+              (fnOf (pieces.getD i ([], 0, [])).1 pv
+                + t * (fnOf (pieces.getD i ([], 0, [])).1 (pv + 1) - fnOf (pieces.getD i ([], 0, [])).1 pv))).getD j 0
+            = (surfacePoint pu pv (fnOf Uu) (fnOf Uv) su sv P u
+                ((breaks pv (fnOf Uv) sv).getD i 0
+                  + t * ((breaks pv (fnOf Uv) sv).getD (i + 1) 0 - (breaks pv (fnOf Uv) sv).getD i 0))).getD j 0) ∧
+      (∀ i, i < pieces.length → (1 ≤ i ∨ fnOf Uv 0 = fnOf Uv pv) →
+        (i + 1 < pieces.length ∨ fnOf Uv (sv + pv) = fnOf Uv sv) →
+        ClampedKv pv (pv + 1) (pieces.getD i ([], 0, [])).1 ∧
+        ((pv + 1 < sv ∨ (fnOf Uv 0 = 0 ∧ fnOf Uv (sv + pv) = 1)) → (pieces.getD i ([], 0, [])).1 = bezKv pv)) ∧
+      ((pv + 1 < sv ∨ (fnOf Uv 0 = 0 ∧ fnOf Uv (sv + pv) = 1)) → ∀ i, i < pieces.length →
+        fnOf (pieces.getD i ([], 0, [])).1 0 = 0 ∧ fnOf (pieces.getD i ([], 0, [])).1 (pv + 1 + pv) = 1) :=
+  decompose_surface_v_allU rat pu pv d tol fuel Uu Uv su sv P hP hlenP hUm hsu hUn h0 hfuel
+
+/-- **Decomposition of a surface in both directions, knot vectors clamped or not, end to end** (model
+    `decomposeUVE` / `decomposeUV` = `decompose_surface(…, decompose_dir='uv')`: u first, then every strip in v).
+    Both knot vectors normalised and admissible (`DecompWFU` of column 0 / row 0).  No exception; exactly one
+    patch per PAIR of non-empty knot intervals, in u-major order (patch `(i, l)` at position `l + cV * i`); every
+    patch has `(pu+1)(pv+1)` control points over well-formed single-span knot vectors `VU`, `VV`, and for all
+    `s, t ∈ [0,1]` its point at the affine images of `(s, t)` in ITS OWN domains `[VU_pu, VU_{pu+1}] × [VV_pv, VV_{pv+1}]`
+    is the original surface's point at
+    `(breaksU i + s (breaksU (i+1) - breaksU i), breaksV l + t (breaksV (l+1) - breaksV l))`; in u (in v) the patch's
+    knot vector is `0^{p+1} 1^{p+1}` – a Bézier patch in that direction – whenever (`i ≥ 1` (`l ≥ 1`) or the input
+    is clamped at its start) and (it is not in the last strip or the input is clamped at its end). -/
+theorem decompose_unclamped_surface_uv_pieces (rat : Bool) (pu pv d : ℕ) (tol : K) (Uu Uv : List K) (su sv : ℕ)
+    (P : List (List K)) (hP : NetOk d P) (hlenP : P.length = su * sv)
+    (hUn : knotNormalize Uu = Uu) (hVn : knotNormalize Uv = Uv)
+    (hU0 : DecompWFU pu d Uu (colOf su sv P 0) tol) (hV0 : DecompWFU pv d Uv (rowOf sv P 0) tol) :
+    ∃ L : List (Shape K),
+      decomposeUVE tol (surfShape rat pu pv Uu Uv su sv P) = some L ∧
+      decomposeUV tol (surfShape rat pu pv Uu Uv su sv P) = L ∧
+      L.length = (spanStarts pu (fnOf Uu) su).length * (spanStarts pv (fnOf Uv) sv).length ∧
+      ∀ i, i < (spanStarts pu (fnOf Uu) su).length → ∀ l, l < (spanStarts pv (fnOf Uv) sv).length →
+        ∃ (VU VV : List K) (Pil : List (List K)),
+          L.getD (l + (spanStarts pv (fnOf Uv) sv).length * i) (surfShape rat pu pv [] [] 0 0 [])
+            = surfShape rat pu pv VU VV (pu + 1) (pv + 1) Pil ∧
+          SplitKvWF pu (pu + 1) VU ∧ SplitKvWF pv (pv + 1) VV ∧
+          Pil.length = (pu + 1) * (pv + 1) ∧ NetOk d Pil ∧
+          (∀ s, 0 ≤ s → s ≤ 1 → ∀ t, 0 ≤ t → t ≤ 1 → ∀ j,
+            (surfacePoint pu pv (fnOf VU) (fnOf VV) (pu + 1) (pv + 1) Pil
+                (fnOf VU pu + s * (fnOf VU (pu + 1) - fnOf VU pu))
+                (fnOf VV pv + t * (fnOf VV (pv + 1) - fnOf VV pv))).getD j 0
+              = (surfacePoint pu pv (fnOf Uu) (fnOf Uv) su sv P
+                  ((breaks pu (fnOf Uu) su).getD i 0
+                    + s * ((breaks pu (fnOf Uu) su).getD (i + 1) 0 - (breaks pu (fnOf Uu) su).getD i 0))
+                  ((breaks pv (fnOf Uv) sv).getD l 0
+                    + t * ((breaks pv (fnOf Uv) sv).getD (l + 1) 0 - (breaks pv (fnOf Uv) sv).getD l 0))).getD j 0) ∧
+          ((1 ≤ i ∨ fnOf Uu 0 = fnOf Uu pu) →
+            (i + 1 < (spanStarts pu (fnOf Uu) su).length ∨ fnOf Uu (su + pu) = fnOf Uu su) → VU = bezKv pu) ∧
+          ((1 ≤ l ∨ fnOf Uv 0 = fnOf Uv pv) →
+            (l + 1 < (spanStarts pv (fnOf Uv) sv).length ∨ fnOf Uv (sv + pv) = fnOf Uv sv) → VV = bezKv pv) :=
+  decompose_surface_uv_allU rat pu pv d tol Uu Uv su sv P hP hlenP hUn hVn hU0 hV0
+
+/-! ### Non-vacuity
+
+`DecompUEx.U = [0, 1/10, 3/10, 2/5, 3/5, 7/10, 9/10, 1]` (quadratic, five control points, domain `[3/10, 7/10]`,
+inner knots `2/5`, `3/5`); `DecompUEx.UR = [0,1,1,2,3,4]` (degree 1, `U_2 = U_1`: the raising pattern). -/
+
+/-- the unclamped quadratic is admissible; it has three non-empty intervals, the model with exceptions
+    answers three pieces -/
+example : DecompWFU 2 2 DecompUEx.U DecompUEx.P DecompUEx.tol := DecompUEx.decompWFU
+
+example : (decomposeDirE 0 DecompUEx.tol 8 (curveShape false 2 DecompUEx.U DecompUEx.P)).map List.length
+    = some (spanStarts 2 (fnOf DecompUEx.U) DecompUEx.P.length).length :=
+  (decompose_unclamped_curve_count false 2 2 DecompUEx.tol 8 DecompUEx.U DecompUEx.P DecompUEx.decompWFU
+    (by simp [DecompUEx.U])).1
+
+example : (spanStarts 2 (fnOf DecompUEx.U) DecompUEx.P.length).length = 3 := by rw [DecompUEx.starts]; rfl
+
+/-- the middle piece (index 1 of 3) is a Bézier segment with the knot vector `0,0,0,1,1,1` -/
+example : ∃ pieces : List (List ℚ × List (List ℚ)),
+    decomposeDirE 0 DecompUEx.tol 8 (curveShape false 2 DecompUEx.U DecompUEx.P)
+      = some (pieces.map (fun q => curveShape false 2 q.1 q.2)) ∧
+    pieces.length = 3 ∧ (pieces.getD 1 ([], [])).1 = bezKv 2 := by
+  obtain ⟨pieces, h1, _, h3, _, h5, _⟩ :=
+    decompose_unclamped_curve_pieces false 2 2 DecompUEx.tol 8 DecompUEx.U DecompUEx.P DecompUEx.decompWFU
+      (by have := spanStarts_length_le 2 (fnOf DecompUEx.U) DecompUEx.P.length
+          simp [DecompUEx.P, SplitUEx.P] at this ⊢; omega)
+  have h3' : pieces.length = 3 := by rw [h3, DecompUEx.starts]; rfl
+  refine ⟨pieces, h1, h3', ?_⟩
+  exact (h5 1 (by omega) (Or.inl (le_refl _)) (Or.inl (by omega))).2
+    (Or.inl (by simp [DecompUEx.P, SplitUEx.P]))
+
+/-- degree 1, `U = [0,1,1,2,3,4]`: `U_2 = U_1`, the implementation raises, the model with exceptions answers
+    `none` (while the plain model returned the input unsplit) -/
+example : decomposeDirE 0 DecompUEx.tol 6 (curveShape false 1 DecompUEx.UR DecompUEx.PR) = none :=
+  decompose_rejects_domain_edge 0 DecompUEx.tol 5 (curveShape false 1 DecompUEx.UR DecompUEx.PR)
+    (by simp [curveShape, Shape.kv, Shape.size, Shape.deg, DecompUEx.UR, DecompUEx.PR])
+    (by simp [curveShape, Shape.size, Shape.deg, DecompUEx.PR])
+    (Or.inl (by simp [curveShape, Shape.kv, Shape.deg, DecompUEx.UR, fnOf, List.getD]))
+
+/-- a 5 × 3 surface of degrees (2, 1), BOTH knot vectors unclamped and normalised
+    (`DecompUEx.U`, `DecompUEx.VN = [0, 1/4, 1/2, 3/4, 1]`): the hypotheses of the two surface theorems hold; three
+    strips in u, two in v -/
+example : ∃ pieces : List (List ℚ × ℕ × List (List ℚ)),
+    decomposeDirE 0 DecompUEx.tol 8 (surfShape false 2 1 DecompUEx.U DecompUEx.VN 5 3 DecompUEx.PSN)
+      = some (pieces.map (fun q => surfShape false 2 1 q.1 DecompUEx.VN q.2.1 3 q.2.2)) ∧
+    pieces.length = (spanStarts 2 (fnOf DecompUEx.U) 5).length := by
+  obtain ⟨pieces, h1, _, h3, _⟩ := decompose_unclamped_surface_u_pieces false 2 1 3 DecompUEx.tol 8 DecompUEx.U
+    DecompUEx.VN 5 3 DecompUEx.PSN DecompUEx.netSN (by simp [DecompUEx.PSN]) DecompUEx.mono_VN (by omega)
+    DecompUEx.norm_VN DecompUEx.decompWFU_col
+    (by have := spanStarts_length_le 2 (fnOf DecompUEx.U) 5; omega)
+  exact ⟨pieces, h1, h3⟩
+
+example : ∃ pieces : List (List ℚ × ℕ × List (List ℚ)),
+    decomposeDirE 1 DecompUEx.tol 5 (surfShape false 2 1 DecompUEx.U DecompUEx.VN 5 3 DecompUEx.PSN)
+      = some (pieces.map (fun q => surfShape false 2 1 DecompUEx.U q.1 5 q.2.1 q.2.2)) ∧
+    pieces.length = (spanStarts 1 (fnOf DecompUEx.VN) 3).length := by
+  obtain ⟨pieces, h1, _, h3, _⟩ := decompose_unclamped_surface_v_pieces false 2 1 3 DecompUEx.tol 5 DecompUEx.U
+    DecompUEx.VN 5 3 DecompUEx.PSN DecompUEx.netSN (by simp [DecompUEx.PSN]) DecompUEx.mono_U (by omega)
+    DecompUEx.norm_U DecompUEx.decompWFU_row
+    (by have := spanStarts_length_le 1 (fnOf DecompUEx.VN) 3; omega)
+  exact ⟨pieces, h1, h3⟩
+
+/-- `uv` on the same surface: (number of u intervals) × (number of v intervals) patches, no exception -/
+example : ∃ L : List (Shape ℚ),
+    decomposeUVE DecompUEx.tol (surfShape false 2 1 DecompUEx.U DecompUEx.VN 5 3 DecompUEx.PSN) = some L ∧
+    L.length = (spanStarts 2 (fnOf DecompUEx.U) 5).length * (spanStarts 1 (fnOf DecompUEx.VN) 3).length := by
+  obtain ⟨L, h1, _, h3, _⟩ := decompose_unclamped_surface_uv_pieces false 2 1 3 DecompUEx.tol DecompUEx.U DecompUEx.VN
+    5 3 DecompUEx.PSN DecompUEx.netSN (by simp [DecompUEx.PSN]) DecompUEx.norm_U DecompUEx.norm_VN
+    DecompUEx.decompWFU_col DecompUEx.decompWFU_row
+  exact ⟨L, h1, h3⟩
 
 end C07
